@@ -5,5 +5,5 @@ cd "$(dirname "$0")"
 mkdir -p _build
 cp model.ml model.mli glue.ml c*.ml main.ml _build/
 cd _build
-ocamlfind ocamlopt -O3 -w -a -package str -linkpkg model.mli model.ml glue.ml $(ls c[0-9]*.ml | sort) main.ml -o ../driver 2>&1 | grep -v "^ocamlfind: \[WARNING\]\|options -O3 is only relevant" || true
+ocamlfind ocamlopt -O3 -w -a -package str -linkpkg model.mli model.ml glue.ml c06.ml $(ls c[0-9]*.ml | sort | grep -v "^c06.ml$") main.ml -o ../driver 2>&1 | grep -v "^ocamlfind: \[WARNING\]\|options -O3 is only relevant" || true
 test -x ../driver
